@@ -627,6 +627,7 @@ type acase struct {
 	self    bool   // self-test: reads the fault-free input although judged as faulted
 	dir     string
 	sql     string
+	env     []string // extra environment of the child (GOMAXPROCS for the large-failing-side family)
 	res     cli.Result
 	ran     bool
 }
@@ -767,6 +768,8 @@ func Run(c *core.Ctx) core.FinishOpts {
 		}
 	}
 
+	cases = append(cases, largeSideCases(c, runner)...)
+
 	if only := onlyID(c); only != "" {
 		var keep []*acase
 		for _, a := range cases {
@@ -802,7 +805,7 @@ func Run(c *core.Ctx) core.FinishOpts {
 	// execute
 	core.Parallel(len(cases), 16, func(i int) {
 		a := cases[i]
-		a.res = runner.Exec(cli.Run{Args: a.args(), Dir: a.dir})
+		a.res = runner.Exec(cli.Run{Args: a.args(), Dir: a.dir, Env: a.env})
 		a.ran = true
 	})
 
@@ -817,7 +820,7 @@ func Run(c *core.Ctx) core.FinishOpts {
 	c.Count("watchdog_retries", len(slow))
 	core.Parallel(len(slow), 3, func(i int) {
 		a := slow[i]
-		a.res = runner.Exec(cli.Run{Args: a.args(), Dir: a.dir})
+		a.res = runner.Exec(cli.Run{Args: a.args(), Dir: a.dir, Env: a.env})
 	})
 	var stillSlow []string
 	for _, a := range slow {
@@ -866,7 +869,7 @@ func Run(c *core.Ctx) core.FinishOpts {
 		}
 		replay := map[string]interface{}{
 			"id": a.id, "fault": a.f.name, "fault_description": a.f.what, "operator": a.o.name, "mode": a.mode,
-			"position": a.p.name, "row": a.p.k, "rows_in_table": nRows, "args": a.args(), "fixture": a.f.name + " at row " + fmt.Sprint(a.p.k),
+			"position": a.p.name, "row": a.p.k, "rows_in_table": nRows, "args": a.args(), "env": a.env, "fixture": a.f.name + " at row " + fmt.Sprint(a.p.k),
 			"exit": a.res.Exit, "stderr": tail(a.res.Stderr, 600), "stdout_bytes": len(a.res.Stdout),
 		}
 		if a.res.TimedOut {
@@ -1034,4 +1037,86 @@ func onlyID(c *core.Ctx) string {
 		return ""
 	}
 	return r.Case.ID
+}
+
+// largeSideCases: the "large failing side" family. StreamJoin's sources run in goroutines that
+// hand records to the join through 10000-slot channels; a source that fails while it is far ahead
+// of the join must still get its error through. So: an inner join whose failing input has 20000
+// rows with the fault at the very end, made slow relative to that source (7 distinct keys, every
+// failing-side row matches 300 rows of the other side; a global count(*) keeps the output small),
+// fault on the left and on the right, GOMAXPROCS 1 and 16, each configuration twice (the schedule
+// in which the source sits exactly a full buffer ahead is likely but not certain).
+func largeSideCases(c *core.Ctx, runner *cli.Runner) []*acase {
+	if os.Getenv("VERIF_C06_FAULTS") != "" && !strings.Contains(os.Getenv("VERIF_C06_FAULTS"), "large-side") {
+		return nil
+	}
+	const n, keys, fan = 20000, 7, 300
+	dir := runner.NewDir()
+	var big strings.Builder
+	for i := 0; i < n; i++ {
+		fmt.Fprintf(&big, "{\"id\":%d,\"k\":%d}\n", i, i%keys)
+	}
+	var small strings.Builder
+	for i := 0; i < keys*fan; i++ {
+		fmt.Fprintf(&small, "{\"k\":%d,\"v\":%d}\n", i%keys, i)
+	}
+	files := map[string]string{
+		"big.json":           big.String(),
+		"small.json":         small.String(),
+		"big_malformed.json": big.String() + fmt.Sprintf("{\"id\":%d,\"k\":\n", n),
+		"big_longline.json":  big.String() + fmt.Sprintf("{\"id\":%d,\"k\":1,\"pad\":\"%s\"}\n", n, strings.Repeat("x", 1<<20)),
+	}
+	for name, data := range files {
+		if err := os.WriteFile(filepath.Join(dir, name), []byte(data), 0o644); err != nil {
+			c.Inconclusive("fixture-write")
+			return nil
+		}
+	}
+	type variant struct {
+		f         *fault
+		bad, good string // the failing side as a table expression with alias b
+	}
+	guard := func(k int) string {
+		return fmt.Sprintf("(SELECT * FROM big.json f WHERE (f.id != %d.0 OR panic('x') IS NULL)) b", k)
+	}
+	variants := []variant{
+		{&fault{name: "large-side/expr-panic-late-row", class: "expression", what: fmt.Sprintf("panic('x') at row %d of a %d-row join input", n-10, n), markers: []string{"panic: 'x'"}}, guard(n - 10), guard(-1)},
+		{&fault{name: "large-side/json-malformed-last-line", class: "input-row", what: fmt.Sprintf("truncated JSON object after %d good rows of a join input", n), markers: []string{"parse"}}, "big_malformed.json b", "big.json b"},
+		{&fault{name: "large-side/json-long-last-line", class: "input-row", what: fmt.Sprintf("over-long JSON line after %d good rows of a join input", n), markers: []string{"token too long"}}, "big_longline.json b", "big.json b"},
+	}
+	sides := []struct {
+		o   *op
+		sql func(b string) string
+	}{
+		{&op{name: "inner-join-slow-fanout/fault-left", swallower: never}, func(b string) string {
+			return "SELECT count(*) AS c FROM " + b + " JOIN small.json s ON b.k = s.k"
+		}},
+		{&op{name: "inner-join-slow-fanout/fault-right", swallower: never}, func(b string) string {
+			return "SELECT count(*) AS c FROM small.json s JOIN " + b + " ON s.k = b.k"
+		}},
+	}
+	var out []*acase
+	seenCtl := map[string]bool{}
+	for vi, v := range variants {
+		for si, sd := range sides {
+			mode := []string{"json", "batch_table"}[(vi+si)%2]
+			csql := sd.sql(v.good)
+			ck := ctlKey(csql, mode, true)
+			if !seenCtl[ck] {
+				seenCtl[ck] = true
+				out = append(out, &acase{id: "control|" + ck, f: v.f, o: sd.o, mode: mode, p: pos{"end-of-large-input", n}, opt: true, control: true, dir: dir, sql: csql, ctl: ck})
+			}
+			for _, procs := range []int{1, 16} {
+				for rep := 0; rep < 2; rep++ {
+					out = append(out, &acase{
+						id: fmt.Sprintf("%s|%s|%s|GOMAXPROCS=%d|rep=%d", v.f.name, sd.o.name, mode, procs, rep),
+						f:  v.f, o: sd.o, mode: mode, p: pos{"end-of-large-input", n}, opt: true, dir: dir, sql: sd.sql(v.bad), ctl: ck,
+						env: []string{fmt.Sprintf("GOMAXPROCS=%d", procs)},
+					})
+				}
+			}
+		}
+	}
+	c.Note("large_failing_side_family", fmt.Sprintf("%d-row failing join input, fault at the end, %d matches per row, 3 faults x 2 sides x GOMAXPROCS{1,16} x 2 repetitions", n, fan))
+	return out
 }
